@@ -13,12 +13,12 @@
 Candidates are confirmed on the real code (real evaluation of the derivative tree + 6-point central finite
 differences of the real `eval_once` at dyadic points) before they are reported as failing inputs.
 """
-import base64, pickle, json, collections, functools, inspect, itertools, math
+import base64, pickle, json, collections, functools, inspect, itertools, math, os, select, subprocess, time
 from fractions import Fraction
 import numpy
 from nutils import evaluable as ev, function, types
 from . import genexpr, ser, shrink, polykey, exprcheck as X
-from .common import Infra
+from .common import Infra, LEAN
 
 # ------------------------------------------------------------------------------------------------ (X) extraction
 
@@ -340,6 +340,62 @@ def tree_size(e):
     return len(shrink.all_nodes(e))
 
 
+
+class LeanSession:
+    """persistent `Drivers/C04.lean` process with a per-request time limit: a request whose symbolic evaluation explodes
+    (e.g. inverse of a 3x3 matrix of long polynomials) is abandoned and decided numerically instead"""
+
+    def __init__(self, driver='C04'):
+        self.driver = driver
+        self.p = None
+        self.restarts = 0
+
+    def start(self):
+        self.p = subprocess.Popen(['lake', 'env', 'lean', '--run', os.path.join('Drivers', self.driver + '.lean')], cwd=LEAN,
+                                  stdin=subprocess.PIPE, stdout=subprocess.PIPE, stderr=subprocess.PIPE, text=True, bufsize=1)
+
+    def stop(self):
+        if self.p is not None:
+            try:
+                self.p.kill(); self.p.wait(10)
+            except Exception:
+                pass
+            self.p = None
+
+    def ask(self, line, timeout):
+        """answer line, or None when the time limit was exceeded (the process is then restarted lazily)"""
+        assert '\n' not in line
+        if self.p is None:
+            self.start()
+        try:
+            self.p.stdin.write(line + '\n'); self.p.stdin.flush()
+        except BrokenPipeError:
+            err = self.p.stderr.read()[-1500:] if self.p.stderr else ''
+            self.stop()
+            raise Infra('lean driver %s died: %s' % (self.driver, err))
+        # the first request also pays for the start of the interpreter
+        deadline = time.time() + timeout + (60 if self.restarts == 0 and not getattr(self, 'warm', False) else 15)
+        buf = []
+        while True:
+            left = deadline - time.time()
+            if left <= 0:
+                self.stop(); self.restarts += 1
+                return None
+            r, _, _ = select.select([self.p.stdout], [], [], min(left, 5))
+            if r:
+                out = self.p.stdout.readline()
+                if out == '':
+                    err = self.p.stderr.read()[-1500:]
+                    self.stop()
+                    raise Infra('lean driver %s exited unexpectedly: %s' % (self.driver, err))
+                self.warm = True
+                return out.rstrip('\n')
+            if self.p.poll() is not None:
+                err = self.p.stderr.read()[-1500:]
+                self.stop()
+                raise Infra('lean driver %s exited unexpectedly: %s' % (self.driver, err))
+
+
 class Judge:
     """runs a batch of cases through the Lean driver and turns the answers into verdicts"""
 
@@ -350,6 +406,7 @@ class Judge:
         self.nspec = self.nspec_bad = 0
         self.nsym = self.npoint = self.nnum = 0
         self.spec_classes = collections.Counter()
+        self.session = LeanSession()
 
     def run(self, cases, maxnodes=900):
         c = self.c
@@ -362,8 +419,15 @@ class Judge:
                 reqs.append(case.request()); todo.append(case)
             except ValueError as ex:
                 self.outcome['not-serialisable'] += 1
-        answers = c.model(reqs, driver='C04') if reqs else []
-        for case, a in zip(todo, answers):
+        limit = 20 if c.tier == 'quick' else 45
+        for case, req in zip(todo, reqs):
+            a = self.session.ask(req, limit)
+            if a is None:
+                # symbolic evaluation too expensive: no Lean verdict for this case
+                self.count(case, 'lean-time-limit')
+                c.case(('timeout', case.stream, case.label, case.wrt))
+                if case.fd: self.numeric_fallback(case, 'time limit')
+                continue
             if a.startswith('bad-request'):
                 raise Infra('C04 driver rejected a request: %s' % a[:300])
             self.judge(case, json.loads(a))
@@ -1065,7 +1129,10 @@ def run(c):
             e, args = pickle.loads(base64.b64decode(r['pickled']))
         except Exception as ex:
             raise Infra('replay file has no usable pickled expression: %r' % ex)
-        J.run(derivative_case(c, 'replay', r.get('label', 'replay'), e, r['wrt'], args, second=False, outcome=J.outcome, of_simplified=True))
+        try:
+            J.run(derivative_case(c, 'replay', r.get('label', 'replay'), e, r['wrt'], args, second=False, outcome=J.outcome, of_simplified=True))
+        finally:
+            J.session.stop()
         for k, v in sorted(J.outcome.items()): c.count(k, v)
         c.obligation('replay', not c.violations, 'validation', 'recorded input re-validated')
         return
@@ -1080,10 +1147,14 @@ def run(c):
     c.log('%d cases generated' % len(cases))
     c.rng.shuffle(cases) if False else None
     # batches keep the driver's memory and the latency bounded
-    B = 400
-    for i in range(0, len(cases), B):
-        J.run(cases[i:i+B])
-        c.log('judged %d/%d' % (min(i+B, len(cases)), len(cases)))
+    B = 200
+    try:
+        for i in range(0, len(cases), B):
+            J.run(cases[i:i+B])
+            c.log('judged %d/%d' % (min(i+B, len(cases)), len(cases)))
+    finally:
+        J.session.stop()
+    c.extra['lean_time_limit_restarts'] = J.session.restarts
     for k, v in sorted(J.outcome.items()): c.count(k, v)
     c.extra['by_stream'] = {k: dict(v) for k, v in J.by_stream.items()}
     c.extra['proved_symbolically_for_all_real_values'] = J.nsym
